@@ -7,7 +7,7 @@ ROOT = os.path.dirname(os.path.dirname(os.path.abspath(__file__)))
 # id -> (technique, level text, level note, design ref)
 CLAIMED = {
  "C01": ("complete enumeration + seeded random search against an independent civil-calendar model (two formulations)",
-         "thorough tier enumerates all 2^32 day numbers and all 5.4e9 (year, month, day) triples of the stated domain against an independent model, so within the model's correctness the property is decided exhaustively; quick tier enumerates boundary windows (~6M days, ~3000 years x 462 triples), every 3rd day number of the whole range and 48 probe dates in every one of the 11.76M years, plus 2.5M random cases",
+         "thorough tier enumerates all 2^32 day numbers and all 5.4e9 (year, month, day) triples of the stated domain against an independent model, so within the model's correctness the property is decided exhaustively; quick tier enumerates boundary windows (~6M days, ~3000 years x 462 triples), all 2^32 day numbers and 48 probe dates in every one of the 11.76M years, plus 2.5M random cases",
          "trusts the reference calendar in harness/src/model/cal.rs (closed form cross-checked against successor stepping and anchors at every run) and Date::from_timestamp as the way to reach a day number",
          "DESIGN.md 4 C01"),
  "C02": ("complete enumeration (getters: all days; format fields: year-end fortnights of all years; setter: all years x N) + random search against model weekday / day-of-year / ISO week (two formulations) / quarter",
